@@ -23,8 +23,11 @@
      "key") is <= the thread's clock component, every live slot is marked seen
      by [me] with a version <= the thread's clock component, the newest slot
      [aindex (cnt - 1)] has the strictly largest key and its st_mo dominates
-     every live st_mo, live keys are pairwise different, and live st_mo are
-     ordered (vle) like their keys.  Corollary [single_thread_mo_total]: two
+     every live st_mo, live keys are pairwise different, live st_mo are
+     ordered (vle) like their keys, and the store of an RMW immediately follows
+     the store it read ([inv_rmw]: the source slot is live and no other live key
+     lies between the key of the source slot and the key of the RMW's slot).
+     Corollary [single_thread_mo_total]: two
      different live slots are strictly ordered by vv_lt one way or the other,
      and never vv_eqb.
 
@@ -51,8 +54,14 @@
      ring ([rmw_atomicity_pass_id], [rmw_atomicity_id]); in a single-thread run
      it does ([store_mo_dominates]), so State::store_from writes the same
      st_mo as before whatever the source ([atomic_store_from_eq]) and
-     [atomic_store_from_inv] preserves the invariant for any [src];
+     [atomic_store_from_inv] preserves the invariant when [src] is None or names
+     the newest slot (what State::rmw passes: it reads the newest store);
      [atomic_store_inv] is the instance src = None.
+
+   - the RMW-atomicity closure at the end of apply_load_coherence
+     ([close_rmw_atomicity]): under the invariant neither rule of [close_step]
+     fires ([close_step_id], [close_rmw_atomicity_id]), so a single-thread load
+     only replaces the newest slot's st_mo ([alc_stores_newest]).
 
    Not stated: the suggested "ordered according to store AGE" formulation of
    the invariant (slot of the k-th most recent store).  The invariant orders
@@ -289,7 +298,15 @@ Record Inv (me : nat) (s : atomic_state) (caus : vv) : Prop := mkInv {
      vle (st_mo (get_store s i)) (st_mo (get_store s (newest s)));
   inv_distinct : forall i j, live s i -> live s j -> i <> j -> key me s i <> key me s j;
   inv_order : forall i j, live s i -> live s j -> key me s i < key me s j ->
-     vle (st_mo (get_store s i)) (st_mo (get_store s j))
+     vle (st_mo (get_store s i)) (st_mo (get_store s j));
+  (* the store of an RMW immediately follows the store it read: the source slot is live
+     and no other live slot has its key between the two (when the source slot has been
+     overwritten since, it holds a newer store and the first alternative holds) *)
+  inv_rmw : forall r slot sid, live s r ->
+     st_rmw_src (get_store s r) = Some (slot, sid) -> slot <> r ->
+     live s slot /\
+     forall i, live s i -> i <> r -> i <> slot ->
+       key me s i < key me s slot \/ key me s r < key me s i
 }.
 
 (* every slot, live or dead, has a key <= the newest key *)
@@ -570,7 +587,7 @@ Proof.
   destruct s as [lo ul sd um mu ll ln st cn].
   destruct s' as [lo' ul' sd' um' mu' ll' ln' st' cn'].
   simpl in Hm, Hum, Hul, Hst, Hc. subst mu' um' ul' st' cn'.
-  destruct HI as [H1 H2 H3 H4 H5 H6 H7 H8 H9 H10 H11 H12 H13].
+  destruct HI as [H1 H2 H3 H4 H5 H6 H7 H8 H9 H10 H11 H12 H13 H14].
   constructor; assumption.
 Qed.
 
@@ -617,7 +634,7 @@ Lemma Inv_mono : forall me s caus c',
 Proof.
   intros me s caus c' HI Hc Hlen.
   pose proof (Hc me) as Hme.
-  destruct HI as [H1 H2 H3 H4 H5 H6 H7 H8 H9 H10 H11 H12 H13].
+  destruct HI as [H1 H2 H3 H4 H5 H6 H7 H8 H9 H10 H11 H12 H13 H14].
   constructor; try assumption.
   - eapply vle_trans; [exact H6 | exact Hc].
   - eapply vle_trans; [exact H7 | exact Hc].
@@ -729,12 +746,14 @@ Proof.
   intros x Hx. apply (@store_mo_dominates me s caus c' x HI Hc Hx).
 Qed.
 
+(* [src] is None (State::store) or names the newest slot (State::rmw, which reads it) *)
 Lemma atomic_store_from_inv : forall me s caus c' rel sync0 v o src,
   Inv me s caus -> vle caus c' -> vv_get caus me < vv_get c' me -> me < length c' ->
+  (forall slot sid, src = Some (slot, sid) -> slot = newest s) ->
   Inv me (atomic_store_from s me c' rel sync0 v o src) c' /\
   cur (atomic_store_from s me c' rel sync0 v o src) = v.
 Proof.
-  intros me s caus c' rel sync0 v o src HI Hc Hlt Hlen.
+  intros me s caus c' rel sync0 v o src HI Hc Hlt Hlen Hsrc.
   assert (Hc' : vv_get caus me <= vv_get c' me) by lia.
   pose proof (aindex_lt (at_cnt s)) as Hidx.
   assert (Hidx' : aindex (at_cnt s) < length (at_stores s)) by (rewrite (inv_len HI); exact Hidx).
@@ -799,6 +818,33 @@ Proof.
       * subst i. rewrite Hkeyn, (Hkeyo j Hje) in Hk. pose proof (inv_keyle HI j) as Hkj. lia.
       * rewrite (Hkeyo i Hie), (Hkeyo j Hje) in Hk. rewrite (Hgeto i Hie), (Hgeto j Hje).
         apply (inv_order HI (Hlive i Hi Hie) (Hlive j Hj Hje) Hk).
+  - intros r slot sid Hr Hsrc_r Hsr.
+    assert (Hup : forall i, live s i -> live s' i).
+    { intros i [H7 Hi]. split; [exact H7 | rewrite Hcnt; lia]. }
+    assert (Hidxlive : live s' (aindex (at_cnt s))).
+    { split; [exact Hidx | rewrite Hcnt; pose proof (aindex_le (at_cnt s)) as Hle; lia]. }
+    assert (Hold : forall i, i <> aindex (at_cnt s) ->
+                     key me s' i < key me s' (aindex (at_cnt s))).
+    { intros i Hi. rewrite Hkeyn, (Hkeyo i Hi). pose proof (inv_keyle HI i) as Hki. lia. }
+    destruct (Nat.eq_dec r (aindex (at_cnt s))) as [Hre|Hre].
+    + (* the new store: its source is the slot that was newest *)
+      subst r. rewrite Hgetn in Hsrc_r. change (st_rmw_src x) with src in Hsrc_r.
+      pose proof (Hsrc slot sid Hsrc_r) as Hslot. subst slot.
+      assert (Hn : live s (newest s)) by (apply live_newest; apply (inv_cnt HI)).
+      split; [apply Hup; exact Hn|].
+      intros i Hi Hir His. left.
+      rewrite (Hkeyo i Hir), (Hkeyo (newest s) Hsr).
+      destruct (inv_max HI (Hlive i Hi Hir) His) as [Hk _]. exact Hk.
+    + rewrite (Hgeto r Hre) in Hsrc_r. pose proof (Hlive r Hr Hre) as Hr0.
+      destruct (Nat.eq_dec slot (aindex (at_cnt s))) as [Hse|Hse].
+      * (* the source slot is overwritten: it now holds the largest key *)
+        subst slot. split; [exact Hidxlive|]. intros i Hi Hir His. left. apply Hold. exact His.
+      * destruct (inv_rmw HI Hr0 Hsrc_r Hsr) as [Hsl Hbet]. split; [apply Hup; exact Hsl|].
+        intros i Hi Hir His.
+        destruct (Nat.eq_dec i (aindex (at_cnt s))) as [Hie|Hie].
+        -- subst i. right. apply Hold. exact Hre.
+        -- rewrite (Hkeyo i Hie), (Hkeyo slot Hse), (Hkeyo r Hre).
+           apply Hbet; [apply (Hlive i Hi Hie) | exact Hir | exact His].
 Qed.
 
 Lemma atomic_store_inv : forall me s caus c' rel sync0 v o,
@@ -806,7 +852,9 @@ Lemma atomic_store_inv : forall me s caus c' rel sync0 v o,
   Inv me (atomic_store s me c' rel sync0 v o) c' /\
   cur (atomic_store s me c' rel sync0 v o) = v.
 Proof.
-  intros me s caus c' rel sync0 v o. unfold atomic_store. apply atomic_store_from_inv.
+  intros me s caus c' rel sync0 v o HI Hc Hlt Hlen. unfold atomic_store.
+  apply (atomic_store_from_inv rel sync0 v o HI Hc Hlt Hlen).
+  intros slot sid Hsrc. discriminate.
 Qed.
 
 (* ------------------------------------------------------------------ *)
@@ -909,38 +957,6 @@ Proof.
     change (st_mo store_default) with vv_new in Hk. rewrite vv_new_get in Hk. lia.
 Qed.
 
-(* a single-thread load reads the newest store, so the propagation step of
-   apply_load_coherence (stores ordered after the loaded one follow its new st_mo)
-   finds nothing to move: the ring after apply_load_coherence is the ring with the
-   newest slot's st_mo replaced by [alc_mo] *)
-Lemma alc_stores_newest : forall me s caus c',
-  Inv me s caus ->
-  at_stores (apply_load_coherence s c' (newest s)) =
-  list_upd (at_stores s) (newest s) (fun x => st_set_mo x (alc_mo s c' (newest s))).
-Proof.
-  intros me s caus c' HI.
-  assert (Hn : live s (newest s)) by (apply live_newest; apply (inv_cnt HI)).
-  assert (Hlen : newest s < length (at_stores s)).
-  { rewrite (inv_len HI). destruct Hn as [Hn _]. exact Hn. }
-  set (M := alc_mo s c' (newest s)).
-  set (before := st_mo (get_store s (newest s))).
-  set (st1 := list_upd (at_stores s) (newest s) (fun x => st_set_mo x M)).
-  set (F := fun (i : nat) (x : astore) =>
-              if negb (Nat.eqb (newest s) i) && vv_lt before (st_mo x)
-              then st_set_mo x (vv_join (st_mo x) M) else x).
-  assert (Hst : at_stores (apply_load_coherence s c' (newest s)) =
-                if vv_eqb M before then st1 else mapi F st1) by reflexivity.
-  rewrite Hst. destruct (vv_eqb M before); [reflexivity|].
-  apply (@mapi_id astore F st1 store_default). intros i Hi.
-  unfold F. destruct (Nat.eqb_spec (newest s) i) as [Heq|Hne]; [reflexivity|].
-  cbn [negb andb].
-  assert (Hx : nth i st1 store_default = get_store s i).
-  { unfold st1. rewrite (list_upd_nth (at_stores s) _ i store_default Hlen).
-    destruct (Nat.eqb_spec i (newest s)) as [Heq|_]; [congruence | reflexivity]. }
-  rewrite Hx. unfold before.
-  rewrite (@newest_not_lt_any me s caus i HI) by congruence. reflexivity.
-Qed.
-
 (* [s'] is [s] with the st_mo of the newest slot enlarged, its me-component kept *)
 Record bumped (me : nat) (s s' : atomic_state) : Prop := mkBumped {
   bu_cnt : at_cnt s' = at_cnt s;
@@ -952,50 +968,9 @@ Record bumped (me : nat) (s s' : atomic_state) : Prop := mkBumped {
   bu_value : st_value (get_store s' (newest s)) = st_value (get_store s (newest s));
   bu_seen : st_seen (get_store s' (newest s)) = st_seen (get_store s (newest s));
   bu_mo : vle (st_mo (get_store s (newest s))) (st_mo (get_store s' (newest s)));
-  bu_key : key me s' (newest s) = key me s (newest s)
+  bu_key : key me s' (newest s) = key me s (newest s);
+  bu_src : st_rmw_src (get_store s' (newest s)) = st_rmw_src (get_store s (newest s))
 }.
-
-Lemma loadpart_bumped : forall me s caus c',
-  Inv me s caus -> bumped me s (loadpart s me c' (newest s)).
-Proof.
-  intros me s caus c' HI.
-  assert (Hn : live s (newest s)) by (apply live_newest; apply (inv_cnt HI)).
-  assert (Hlen : newest s < length (at_stores s)).
-  { rewrite (inv_len HI). destruct Hn as [Hn _]. exact Hn. }
-  set (M := alc_mo s c' (newest s)).
-  set (st2 := list_upd (at_stores s) (newest s) (fun x => st_set_mo x M)).
-  assert (Hlen2 : newest s < length st2).
-  { unfold st2. rewrite list_upd_length. exact Hlen. }
-  set (touch := fun x => st_set_seen x (seen_touch (st_seen x) me (vv_get c' me))).
-  assert (Hst : at_stores (loadpart s me c' (newest s)) = list_upd st2 (newest s) touch).
-  { unfold st2, M. rewrite <- (alc_stores_newest c' HI). reflexivity. }
-  assert (Hget : forall i, get_store (loadpart s me c' (newest s)) i =
-                   if Nat.eqb i (newest s)
-                   then touch (st_set_mo (get_store s (newest s)) M)
-                   else get_store s i).
-  { intros i. unfold get_store at 1. rewrite Hst.
-    rewrite (list_upd_nth st2 touch i store_default Hlen2).
-    unfold st2. rewrite !(list_upd_nth (at_stores s) _ _ store_default Hlen).
-    rewrite Nat.eqb_refl. destruct (Nat.eqb i (newest s)); reflexivity. }
-  assert (Htouch : touch (st_set_mo (get_store s (newest s)) M) =
-                   st_set_mo (get_store s (newest s)) M).
-  { unfold touch. destruct (inv_seen HI Hn) as [v [Hnth _]].
-    simpl. rewrite (@seen_touch_same _ _ _ _ Hnth). reflexivity. }
-  assert (Hgetn : get_store (loadpart s me c' (newest s)) (newest s) =
-                  st_set_mo (get_store s (newest s)) M).
-  { rewrite Hget, Nat.eqb_refl. exact Htouch. }
-  constructor.
-  - reflexivity.
-  - rewrite Hst. rewrite list_upd_length. unfold st2. apply list_upd_length.
-  - reflexivity.
-  - reflexivity.
-  - reflexivity.
-  - intros i Hi. rewrite Hget. destruct (Nat.eqb_spec i (newest s)); [contradiction|reflexivity].
-  - rewrite Hgetn. reflexivity.
-  - rewrite Hgetn. reflexivity.
-  - rewrite Hgetn. simpl. apply alc_mo_ge.
-  - unfold key at 1. rewrite Hgetn. simpl. apply (alc_mo_key c' HI).
-Qed.
 
 Lemma bumped_inv : forall me s s' caus,
   Inv me s caus -> bumped me s s' -> Inv me s' caus /\ cur s' = cur s.
@@ -1039,7 +1014,186 @@ Proof.
     + subst j. destruct (inv_max HI Hi Hine) as [_ Hle].
       eapply vle_trans; [exact Hle | apply (bu_mo HB)].
     + rewrite (bu_other HB Hne). apply (inv_order HI Hi Hj Hk).
+  - intros r slot sid Hr Hsrc Hsr. apply Hlive in Hr.
+    assert (Hsrc0 : st_rmw_src (get_store s r) = Some (slot, sid)).
+    { destruct (Nat.eq_dec r (newest s)) as [Heq|Hne].
+      - subst r. rewrite <- (bu_src HB). exact Hsrc.
+      - rewrite <- (bu_other HB Hne). exact Hsrc. }
+    destruct (inv_rmw HI Hr Hsrc0 Hsr) as [Hsl Hbet].
+    split; [apply Hlive; exact Hsl|].
+    intros i Hi Hir His. apply Hlive in Hi. rewrite !Hkey. apply (Hbet i Hi Hir His).
 Qed.
+
+(* ---- the RMW-atomicity closure at the end of apply_load_coherence ---- *)
+(* under the invariant neither rule of [close_step] fires: the live slots are totally
+   ordered by their key and no live key lies between an RMW's source and the RMW *)
+Lemma close_step_id : forall me s caus r i,
+  Inv me s caus -> live s r -> live s i ->
+  close_step (at_stores s, false) (r, i) = (at_stores s, false).
+Proof.
+  intros me s caus r i HI Hr Hi. unfold close_step. cbv beta iota zeta.
+  fold (get_store s r). fold (get_store s i).
+  destruct (st_rmw_src (get_store s r)) as [[slot sid]|] eqn:Hsrc; [|reflexivity].
+  fold (get_store s slot).
+  destruct (negb (Nat.eqb slot r) && Nat.eqb (st_id (get_store s slot)) sid) eqn:Hc;
+    [|reflexivity].
+  destruct (Nat.eqb i r || Nat.eqb i slot) eqn:Hex; [reflexivity|].
+  apply Bool.andb_true_iff in Hc. destruct Hc as [Hsr _].
+  apply Bool.negb_true_iff in Hsr. apply Nat.eqb_neq in Hsr.
+  apply Bool.orb_false_iff in Hex. destruct Hex as [Hir His].
+  apply Nat.eqb_neq in Hir. apply Nat.eqb_neq in His.
+  destruct (inv_rmw HI Hr Hsrc Hsr) as [Hsl Hbet].
+  specialize (Hbet i Hi Hir His).
+  assert (HA : vv_le (st_mo (get_store s slot)) (st_mo (get_store s i)) &&
+               negb (vv_le (st_mo (get_store s r)) (st_mo (get_store s i))) = false).
+  { destruct (vv_le (st_mo (get_store s slot)) (st_mo (get_store s i))) eqn:E1; [|reflexivity].
+    cbn [andb]. apply Bool.negb_false_iff. apply vv_le_spec.
+    apply vv_le_spec in E1. specialize (E1 me).
+    pose proof (inv_distinct HI Hi Hsl His) as Hd.
+    apply (inv_order HI Hr Hi). unfold key in *. lia. }
+  assert (HB : vv_le (st_mo (get_store s i)) (st_mo (get_store s r)) &&
+               negb (vv_le (st_mo (get_store s i)) (st_mo (get_store s slot))) = false).
+  { destruct (vv_le (st_mo (get_store s i)) (st_mo (get_store s r))) eqn:E2; [|reflexivity].
+    cbn [andb]. apply Bool.negb_false_iff. apply vv_le_spec.
+    apply vv_le_spec in E2. specialize (E2 me).
+    pose proof (inv_distinct HI Hi Hr Hir) as Hd.
+    apply (inv_order HI Hi Hsl). unfold key in *. lia. }
+  rewrite HA, HB. reflexivity.
+Qed.
+
+Lemma close_rmw_atomicity_id : forall me s caus fuel,
+  Inv me s caus ->
+  close_rmw_atomicity fuel (Nat.min (at_cnt s) MAX_ATOMIC_HISTORY) (at_stores s) = at_stores s.
+Proof.
+  intros me s caus fuel HI. destruct fuel as [|f]; [reflexivity|].
+  cbn [close_rmw_atomicity].
+  rewrite fold_left_fix; [reflexivity|].
+  intros [r i] Hin. apply in_prod_iff in Hin. destruct Hin as [Hr Hi].
+  apply in_seq in Hr. apply in_seq in Hi.
+  apply (close_step_id HI); split; lia.
+Qed.
+
+(* the ring with the newest slot's st_mo replaced by [alc_mo] *)
+Lemma bump_newest_bumped : forall me s caus c',
+  Inv me s caus ->
+  bumped me s
+    (at_set_stores s
+       (list_upd (at_stores s) (newest s) (fun x => st_set_mo x (alc_mo s c' (newest s))))
+       (at_cnt s)).
+Proof.
+  intros me s caus c' HI.
+  assert (Hn : live s (newest s)) by (apply live_newest; apply (inv_cnt HI)).
+  assert (Hlen : newest s < length (at_stores s)).
+  { rewrite (inv_len HI). destruct Hn as [Hn _]. exact Hn. }
+  set (M := alc_mo s c' (newest s)).
+  set (s1 := at_set_stores s (list_upd (at_stores s) (newest s) (fun x => st_set_mo x M))
+                           (at_cnt s)).
+  assert (Hget : forall i, get_store s1 i =
+                   if Nat.eqb i (newest s) then st_set_mo (get_store s (newest s)) M
+                   else get_store s i).
+  { intros i. unfold get_store at 1.
+    change (at_stores s1) with (list_upd (at_stores s) (newest s) (fun x => st_set_mo x M)).
+    rewrite (list_upd_nth (at_stores s) _ i store_default Hlen). reflexivity. }
+  assert (Hgetn : get_store s1 (newest s) = st_set_mo (get_store s (newest s)) M).
+  { rewrite Hget, Nat.eqb_refl. reflexivity. }
+  constructor.
+  - reflexivity.
+  - change (at_stores s1) with (list_upd (at_stores s) (newest s) (fun x => st_set_mo x M)).
+    apply list_upd_length.
+  - reflexivity.
+  - reflexivity.
+  - reflexivity.
+  - intros i Hi. rewrite Hget. destruct (Nat.eqb_spec i (newest s)); [contradiction|reflexivity].
+  - rewrite Hgetn. reflexivity.
+  - rewrite Hgetn. reflexivity.
+  - rewrite Hgetn. cbn [st_mo st_set_mo]. apply alc_mo_ge.
+  - unfold key at 1. rewrite Hgetn. cbn [st_mo st_set_mo]. apply (alc_mo_key c' HI).
+  - rewrite Hgetn. reflexivity.
+Qed.
+
+(* a single-thread load reads the newest store, so the propagation step of
+   apply_load_coherence (stores ordered after the loaded one follow its new st_mo)
+   finds nothing to move, and the RMW-atomicity closure that follows finds the
+   invariant again ([bump_newest_bumped], [bumped_inv]) and changes nothing: the ring
+   after apply_load_coherence is the ring with the newest slot's st_mo replaced by
+   [alc_mo] *)
+Lemma alc_stores_newest : forall me s caus c',
+  Inv me s caus ->
+  at_stores (apply_load_coherence s c' (newest s)) =
+  list_upd (at_stores s) (newest s) (fun x => st_set_mo x (alc_mo s c' (newest s))).
+Proof.
+  intros me s caus c' HI.
+  assert (Hn : live s (newest s)) by (apply live_newest; apply (inv_cnt HI)).
+  assert (Hlen : newest s < length (at_stores s)).
+  { rewrite (inv_len HI). destruct Hn as [Hn _]. exact Hn. }
+  destruct (bumped_inv HI (bump_newest_bumped c' HI)) as [HI1 _].
+  set (M := alc_mo s c' (newest s)) in *.
+  set (before := st_mo (get_store s (newest s))).
+  set (st1 := list_upd (at_stores s) (newest s) (fun x => st_set_mo x M)) in *.
+  set (F := fun (i : nat) (x : astore) =>
+              if negb (Nat.eqb (newest s) i) && vv_lt before (st_mo x)
+              then st_set_mo x (vv_join (st_mo x) M) else x).
+  assert (Hst : at_stores (apply_load_coherence s c' (newest s)) =
+                close_rmw_atomicity (4 * MAX_ATOMIC_HISTORY)
+                  (Nat.min (at_cnt s) MAX_ATOMIC_HISTORY)
+                  (if vv_eqb M before then st1 else mapi F st1)) by reflexivity.
+  assert (Hid : (if vv_eqb M before then st1 else mapi F st1) = st1).
+  { destruct (vv_eqb M before); [reflexivity|].
+    apply (@mapi_id astore F st1 store_default). intros i Hi.
+    unfold F. destruct (Nat.eqb_spec (newest s) i) as [Heq|Hne]; [reflexivity|].
+    cbn [negb andb].
+    assert (Hx : nth i st1 store_default = get_store s i).
+    { unfold st1. rewrite (list_upd_nth (at_stores s) _ i store_default Hlen).
+      destruct (Nat.eqb_spec i (newest s)) as [Heq|_]; [congruence | reflexivity]. }
+    rewrite Hx. unfold before.
+    rewrite (@newest_not_lt_any me s caus i HI) by congruence. reflexivity. }
+  rewrite Hst, Hid.
+  exact (close_rmw_atomicity_id (4 * MAX_ATOMIC_HISTORY) HI1).
+Qed.
+
+Lemma loadpart_bumped : forall me s caus c',
+  Inv me s caus -> bumped me s (loadpart s me c' (newest s)).
+Proof.
+  intros me s caus c' HI.
+  assert (Hn : live s (newest s)) by (apply live_newest; apply (inv_cnt HI)).
+  assert (Hlen : newest s < length (at_stores s)).
+  { rewrite (inv_len HI). destruct Hn as [Hn _]. exact Hn. }
+  set (M := alc_mo s c' (newest s)).
+  set (st2 := list_upd (at_stores s) (newest s) (fun x => st_set_mo x M)).
+  assert (Hlen2 : newest s < length st2).
+  { unfold st2. rewrite list_upd_length. exact Hlen. }
+  set (touch := fun x => st_set_seen x (seen_touch (st_seen x) me (vv_get c' me))).
+  assert (Hst : at_stores (loadpart s me c' (newest s)) = list_upd st2 (newest s) touch).
+  { unfold st2, M. rewrite <- (alc_stores_newest c' HI). reflexivity. }
+  assert (Hget : forall i, get_store (loadpart s me c' (newest s)) i =
+                   if Nat.eqb i (newest s)
+                   then touch (st_set_mo (get_store s (newest s)) M)
+                   else get_store s i).
+  { intros i. unfold get_store at 1. rewrite Hst.
+    rewrite (list_upd_nth st2 touch i store_default Hlen2).
+    unfold st2. rewrite !(list_upd_nth (at_stores s) _ _ store_default Hlen).
+    rewrite Nat.eqb_refl. destruct (Nat.eqb i (newest s)); reflexivity. }
+  assert (Htouch : touch (st_set_mo (get_store s (newest s)) M) =
+                   st_set_mo (get_store s (newest s)) M).
+  { unfold touch. destruct (inv_seen HI Hn) as [v [Hnth _]].
+    simpl. rewrite (@seen_touch_same _ _ _ _ Hnth). reflexivity. }
+  assert (Hgetn : get_store (loadpart s me c' (newest s)) (newest s) =
+                  st_set_mo (get_store s (newest s)) M).
+  { rewrite Hget, Nat.eqb_refl. exact Htouch. }
+  constructor.
+  - reflexivity.
+  - rewrite Hst. rewrite list_upd_length. unfold st2. apply list_upd_length.
+  - reflexivity.
+  - reflexivity.
+  - reflexivity.
+  - intros i Hi. rewrite Hget. destruct (Nat.eqb_spec i (newest s)); [contradiction|reflexivity].
+  - rewrite Hgetn. reflexivity.
+  - rewrite Hgetn. reflexivity.
+  - rewrite Hgetn. simpl. apply alc_mo_ge.
+  - unfold key at 1. rewrite Hgetn. simpl. apply (alc_mo_key c' HI).
+  - rewrite Hgetn. reflexivity.
+Qed.
+
 
 Lemma loadpart_inv : forall me s caus c' c'',
   Inv me s caus ->
@@ -1192,8 +1346,12 @@ Proof.
       assert (Hlt2 : vv_get caus me < vv_get c2 me).
       { pose proof (sync_load_ge c1 sy so me) as Hge. fold c2 in Hge. lia. }
       set (src := Some (newest s, st_id (get_store (ts_state s3 c1) (newest s)))).
+      assert (Hsrc : forall slot sid, src = Some (slot, sid) -> slot = newest (ts_state s3 c1)).
+      { intros slot sid Heq. unfold src in Heq. injection Heq as Hslot _.
+        unfold newest. change (at_cnt (ts_state s3 c1)) with (at_cnt s3). rewrite Hcnt.
+        symmetry. exact Hslot. }
       destruct (@atomic_store_from_inv me (ts_state s3 c1) caus c2 vv_new sy next so src
-                  (Inv_ts c1 HI3) Hc2 Hlt2 Hlen2) as [HI' Hcur'].
+                  (Inv_ts c1 HI3) Hc2 Hlt2 Hlen2 Hsrc) as [HI' Hcur'].
       exists (atomic_store_from (ts_state s3 c1) me c2 vv_new sy next so src), c2.
       split; [reflexivity|]. split; [exact HI' | exact Hcur'].
     + exists s3, (sync_load c1 (st_sync (get_store s3 (newest s))) fo).
@@ -1286,6 +1444,8 @@ Proof.
   - intros i Hi Hne. rewrite Hnew in Hne. pose proof (Hlive i Hi) as Hi0. lia.
   - intros i j Hi Hj Hij. pose proof (Hlive i Hi) as Hi0. pose proof (Hlive j Hj) as Hj0. lia.
   - intros i j Hi Hj Hk. pose proof (Hlive i Hi) as Hi0. pose proof (Hlive j Hj) as Hj0. subst i j. lia.
+  - intros r slot sid Hr Hsrc Hsr. rewrite (Hlive r Hr), Hget0 in Hsrc.
+    change (st_rmw_src x) with (@None (nat * nat)) in Hsrc. discriminate.
 Qed.
 
 (* ------------------------------------------------------------------ *)
